@@ -6,6 +6,9 @@ sys.path.insert(0, HERE); sys.path.insert(0, os.path.join(HERE, "drivers"))
 import check
 check.load_props()
 texts = json.load(open(os.path.join(HERE, "scripts", "manifest_texts.json")))
+texts["checks"] = {}
+for f in sorted(os.listdir(os.path.join(HERE, "scripts", "texts"))):
+    if f.endswith(".json"): texts["checks"][f[:-5]] = json.load(open(os.path.join(HERE, "scripts", "texts", f)))
 props = [json.loads(l)["id"] for l in open(os.path.join(HERE, "properties.jsonl"))]
 def hook_commits():
     try:
